@@ -151,10 +151,26 @@ def sensitivity(argv):
             flag = "DETECTED" if res["detected"] else "MISSED"
             if not res["detected"]:
                 missed += 1
+            record_result(res, next(m["what"] for m in ms if m["id"] == res["id"]))
             print(f"[sensitivity] {res['id']:36} {flag:8} rc={res['rc']} {res['secs']}s tests={res['tests']} :: {res['first']}",
                   flush=True)
     print(f"[sensitivity] {len(ms) - missed}/{len(ms)} mutants detected")
     return 1 if missed else 0
+
+
+def record_result(res, what):
+    """Merge one mutant result into selftest/results.json (kept for the catch matrix in DESIGN.md)."""
+    path = os.path.join(core.VERIF_DIR, "selftest", "results.json")
+    try:
+        data = json.load(open(path, encoding="utf-8"))
+    except Exception:
+        data = {}
+    data[res["id"]] = dict(property=res["property"], what=what, detected=res["detected"], exit=res["rc"],
+                           first_signature=(res["first"].split("violation signature=")[1].split(" ")[0]
+                                            if "violation signature=" in res["first"] else ""),
+                           tests=res["tests"], secs=res["secs"], at=time.strftime("%Y-%m-%d %H:%M"))
+    with open(path, "w", encoding="utf-8") as f:
+        json.dump(data, f, ensure_ascii=False, indent=1, sort_keys=True)
 
 
 def main(argv):
